@@ -141,7 +141,7 @@ func main() {
 	fs.StringVar(&op.keepSat, "keepsat", "", "directory into which the SMT file of every cube with a sat assert/panic/unwind query is copied")
 	fs.StringVar(&op.traceQ, "trace", "", "print the block trace of the model of the sat query with this label")
 	fs.BoolVar(&op.decide, "decide", false, "ask the pruning solver at every symbolic branch whether it is decided")
-	fs.StringVar(&op.mapOrder, "maporder", "symbolic", "symbolic: every range over a map visits the keys in a solver-chosen order; fixed: insertion order")
+	fs.StringVar(&op.mapOrder, "maporder", "symbolic", "symbolic: every range over a map visits the keys in a solver-chosen order; flip: insertion or reverse insertion order (one solver-chosen boolean per range); fixed: insertion order")
 	fs.BoolVar(&op.oneshot, "oneshot", false, "one non-incremental solver run per query (needed for non-linear arithmetic)")
 	fs.BoolVar(&op.prof, "profile", false, "print per-function term/time profile of the encoding")
 	consts := constFlags{}
@@ -268,7 +268,7 @@ func runCube(prog *ssa.Program, pkg *ssa.Package, fn *ssa.Function, modPath stri
 		infos: infos, globals: map[*ssa.Global]*Obj{},
 		sizes: &types.StdSizes{WordSize: 8, MaxAlign: 8}, fnsSeen: fnsSeen, consts: consts,
 		ndCount: map[string]int{}, stubsUsed: stubs, inexact: map[string]int{},
-		decideBranches: op.decide, fixedOrder: op.mapOrder == "fixed", maxTerms: op.maxTerms, trace: op.traceQ != "", pruneMs: op.pruneMs,
+		decideBranches: op.decide, fixedOrder: op.mapOrder == "fixed", flipOrder: op.mapOrder == "flip", maxTerms: op.maxTerms, trace: op.traceQ != "", pruneMs: op.pruneMs,
 		deadline: time.Now().Add(time.Duration(op.encTimeout) * time.Second)}
 	if op.prof {
 		ex.profile = map[string]*[3]int64{}
